@@ -1014,6 +1014,7 @@ theorem site_spec (m : Method) (env : Env) (e : SExpr) (hs : sexprOkB m e = true
     | error e =>
       simp only [m2 e hr]
       exact ⟨StreamOk.nil m, TEq.refl _⟩
+  | fmtp ps as => simp [sexprOkB] at hs
   | build b =>
     simpa [evalSite, expectedSite] using bkid_spec m env he b (by simpa [sexprOkB] using hs)
   | frag kids =>
